@@ -55,7 +55,9 @@ def odml_tuple_import(t_count, new_value):
             elif br_check and sep_check:
                 return_value += [cln]
 
-    if not return_value:
+    # An item that was not recognised must not be dropped silently: hand back
+    # the unchanged input, the validation of the caller will refuse it.
+    if len(return_value) < len(new_value):
         return_value = new_value
 
     return return_value
